@@ -161,6 +161,19 @@ CHECKS.update({
              "other radices are C10's; array declarations are unsupported by the analyser (C03).",
         technique=S2, design="6/C09"),
 })
+CHECKS.update({
+    "C13": dict(
+        text="A preamble declares one symbol per role (int, const int, bit, qubit, qubit register, duration, gates of arity 0/1 and 2/2, a "
+             "one-parameter subroutine); in the statement templates (gate calls with 0-4 parameters, 1-3 operands, none/inv/pow modifiers; "
+             "measure / reset / measure-assignment; binary operators; subroutine calls; assignments; qubit / gate / def declarations in 9 scope "
+             "kinds; return; delay) the identifiers are symbolic characters over the role pool plus the built-in U and an undeclared name. The "
+             "rules of the property are z3 formulas over those characters and are PROVED per path against the concrete diagnostics of the real "
+             "analyser (MIR): both directions of each if-and-only-if, and `a program that does none of these gets none of these diagnostics`.",
+        note="Trusted: the rule formulas (vf/h_c13.py), tree / map / string models, MIR dump, z3; counterexamples confirmed by engine==native "
+             "on the concrete text. Bounds: one rule-exercising statement after the preamble; callee/operand pools of 11 names for one "
+             "operand (thorough: two), 7 x 5 beyond.",
+        technique=S2, design="6/C13"),
+})
 
 NOT_YET = {}
 
